@@ -378,6 +378,18 @@ func netipFacts(cs []*Term, ts []*Term, t types.Type, base int) []*Term {
 		cs = append(cs, Implies(z4, And(Eq(hi, BVConst(0, 64)), Eq(Extract(lo, 63, 32), BVConst(0xffff, 32)))))
 		return cs
 	}
+	if nt, ok := t.(*types.Named); ok && nt.Obj().Pkg() != nil && nt.Obj().Pkg().Path() == "net/netip" && nt.Obj().Name() == "Prefix" && base+3 < len(ts) {
+		// type invariant of netip.Prefix (no exported constructor breaks it): the prefix length fits
+		// the address family; the zero Prefix has the zero Addr
+		z, bp := ts[base+2], ts[base+3]
+		if bp.sort == 8 {
+			z0 := Eq(z, BVConst(0, RefSort))
+			z4 := Eq(z, BVConst(0x7fff0004, RefSort))
+			cs = append(cs, Implies(z0, Eq(bp, BVConst(0, 8))))
+			cs = append(cs, Implies(z4, BVUle(bp, BVConst(33, 8))))
+			cs = append(cs, BVUle(bp, BVConst(129, 8)))
+		}
+	}
 	switch u := t.Underlying().(type) {
 	case *types.Struct:
 		off := base
